@@ -128,6 +128,11 @@ def chk_case(inp, c):
         if min(smax) < 1e-2:
             c.cell("unmet:only-vanishing-scales")
             c.unmet("only vanishing scales are feasible (targets cannot be scaled into the gamut)")
+        if obj == "max" and not np.isfinite(max(smax)):
+            # e.g. exactly achromatic targets (zero offset from the neutral direction): the chroma scale is free, the
+            # weighted sum has no maximum and there is nothing the 'max' objective could return
+            c.cell("unmet:max-unbounded")
+            c.unmet("a scale is unbounded over the feasible set: the 'max' objective has no optimum")
     est = gen.live_or_new(c, dreye, inp)
     del c.events[:]          # only the events of the judged call
     kw = dict(solver=cp.CLARABEL) if inp["solver"] == "clarabel" else {}
@@ -158,14 +163,19 @@ def chk_case(inp, c):
     status = sts[-1] if sts else None
     c.cell("status=" + str(status))
 
-    def mech(base):
-        return base if status in (None, "optimal") else f"{base}@{status}"
-    zero_vertex = obj == "max" and np.all(sc >= 0) and np.any(sc == 0)
+    def mech(base, excess=1.0):
+        """Status-aware key: with a non-optimal solver status the status is the mechanism (details dropped);
+        'optimal_inaccurate' explains deviations up to 4x the tolerance only, larger ones are keyed ':gross'."""
+        if status in (None, "optimal"):
+            return base
+        return f"{base.split(':')[0]}@{status}" + (":gross" if (status == "optimal_inaccurate" and excess > 4.0) else "")
+    zero_vertex = np.all(sc >= 0) and np.any(sc == 0)
     c.require(np.all(sc > 0), "both scales are positive",
-              mechanism=mech("scales-nonpositive" + (":max-objective-at-zero" if zero_vertex else "")), scales=sc)
+              mechanism=mech("scales-nonpositive" + ((":%s-objective-at-zero" % obj) if zero_vertex else "")), scales=sc)
     rngx = ubv - lbv
     viol = np.maximum(lbv - X, X - ubv)
-    c.require(np.all(viol <= 1e-5 * rngx), "intensities within the bounds", mechanism=mech("bounds"), worst=float(np.max(viol)))
+    c.require(np.all(viol <= 1e-5 * rngx), "intensities within the bounds", mechanism=mech("bounds", float(np.max(viol / (1e-5 * rngx)))),
+              worst=float(np.max(viol)))
     pred = X @ Mt.T + c0
     c.require(np.all(np.abs(Bp - pred) <= 1e-10 * (np.abs(X) @ np.abs(Mt).T + np.abs(c0)) + 1e-12),
               "predicted capture is the model's capture of the returned intensities", mechanism="prediction")
@@ -173,11 +183,11 @@ def chk_case(inp, c):
     e1 = np.abs(pred.sum(axis=1) - sc[0] * S)
     c.margin("total-capture constraint / (delta+tol)", float(np.max(e1)), d1 + tol)
     c.require(np.all(e1 <= d1 + tol), "fitted total capture equals the target's total times the first scale (within delta_norm1)",
-              mechanism=mech("total-not-scaled"), worst=float(np.max(e1)), delta=d1, scales=sc)
+              mechanism=mech("total-not-scaled", float(np.max(e1)) / (d1 + tol)), worst=float(np.max(e1)), delta=d1, scales=sc)
     e2 = np.abs((pred - sc[0] * nu) - sc[1] * (B - nu))
     c.margin("radial constraint / (delta+tol)", float(np.max(e2)), dr + tol)
     c.require(np.all(e2 <= dr + tol), "fitted offset from the neutral direction equals the target's offset times the second scale",
-              mechanism=mech("offset-not-scaled"), worst=float(np.max(e2)), delta=dr, scales=sc)
+              mechanism=mech("offset-not-scaled", float(np.max(e2)) / (dr + tol)), worst=float(np.max(e2)), delta=dr, scales=sc)
     if feas.status != 0:
         c.inconclusive("oracle LP reports no feasible point although a result was returned", abort=False)
     elif obj == "max":
